@@ -81,3 +81,28 @@ Theorem C04_order_independent : forall rs o1 o2, Permutation o1 o2 ->
     Permutation (so_stackings (find_stackings rs o1)) (so_stackings (find_stackings rs o2)).
 Proof. exact reported_order_independent. Qed.
 Print Assumptions C04_order_independent.
+
+(* sorted in the strong sense: the residue order (model, chain, number, insertion code) is a strict total order on residue
+   identities, so when no two residues of the structure share an identity the reported list is strongly sorted by
+   (first residue, second residue, label): no entry is followed anywhere later by one that sorts strictly before it *)
+From RV Require Import Proofs.ResOrder Proofs.SortedStrong.
+Theorem C04_residue_order :
+  (forall a, res_ltb a a = false) /\
+  (forall a b c, res_ltb a b = true -> res_ltb b c = true -> res_ltb a c = true) /\
+  (forall a b, res_ltb a b = false -> res_ltb b a = false -> res_key a = res_key b) /\
+  (forall a b c, res_ltb a b = false -> res_ltb b c = false -> res_ltb a c = false).
+Proof. exact res_ltb_order. Qed.
+Print Assumptions C04_residue_order.
+
+Theorem C04_strongly_sorted : forall rs, NoDup (map res_key rs) -> forall order,
+    StronglySorted (fun x y => stack_ltb rs y x = false) (so_stackings (find_stackings rs order)).
+Proof. exact stackings_strongly_sorted. Qed.
+Print Assumptions C04_strongly_sorted.
+
+(* hence the arrival order of the neighbour pairs (the KD-tree's enumeration order) cannot reach the output at all: for any two
+   orders of the same pairs the reported lists are EQUAL, not only permutations of each other *)
+From RV Require Import Proofs.SortedUnique.
+Theorem C04_order_free : forall rs, NoDup (map res_key rs) -> forall o1 o2, Permutation o1 o2 ->
+    so_stackings (find_stackings rs o1) = so_stackings (find_stackings rs o2).
+Proof. exact stackings_order_free. Qed.
+Print Assumptions C04_order_free.
